@@ -26,6 +26,7 @@ from vgi_rpc.metadata import (
     PROTOCOL_VERSION_KEY,
     REQUEST_VERSION,
     REQUEST_VERSION_KEY,
+    RPC_METHOD_KEY,
     SERVER_ID_KEY,
     SHM_OFFSET_KEY,
     SHM_SEGMENT_NAME_KEY,
@@ -893,6 +894,14 @@ class RpcServer:
             except (VersionError, RpcError) as exc:
                 with contextlib.suppress(BrokenPipeError, OSError):
                     _write_error_stream(transport.writer, _EMPTY_SCHEMA, exc, server_id=self._server_id)
+                # The request named its method before it was refused (the
+                # metadata is recorded first): if that is a header-less stream
+                # method, its client still sends the input stream.
+                refused_md = _current_request_metadata.get()
+                refused_name = refused_md.get(RPC_METHOD_KEY) if refused_md is not None else None
+                refused_info = self._methods.get(refused_name.decode(errors="replace")) if refused_name else None
+                if refused_info is not None:
+                    self._discard_refused_stream_input(transport, refused_info)
                 return
 
             # __transport_options__ — framework transport-capability handshake,
